@@ -377,6 +377,7 @@ type batchResult struct {
 
 func failing(l letter) bool { return l.Kind != KOk && l.Kind != KDeepOk && l.Kind != KDeepHost }
 
+
 func hasDeepHost(w []letter) bool {
 	for _, l := range w {
 		if l.Kind == KDeepHost {
